@@ -963,11 +963,11 @@ fn strip_digits(s: &str) -> String {
 /// contains its stack pointer.
 fn region_bound(world: &World, t: &dumpgen::ThreadSpec) -> u64 {
     let mut b = t.stack_len as u64;
-    for o in &world.threads {
-        let end = o.stack_base.wrapping_add(o.stack_len as u64);
-        let inside = if end >= o.stack_base { t.sp >= o.stack_base && t.sp < end } else { t.sp >= o.stack_base || t.sp < end };
+    for &(base, len) in &world.regions {
+        let end = base.wrapping_add(len);
+        let inside = if end >= base { t.sp >= base && t.sp < end } else { t.sp >= base || t.sp < end };
         if inside {
-            b = b.max(o.stack_len as u64);
+            b = b.max(len);
         }
     }
     b.max(32)
